@@ -313,6 +313,14 @@ var (
 	flagJob    = flag.String("job", "", "internal: scenario:bound:deadline-unix")
 )
 
+// IsWorker reports whether this process is a shard worker spawned by Main.
+func IsWorker() bool {
+	if !flag.Parsed() {
+		flag.Parse()
+	}
+	return *flagWorker != ""
+}
+
 type replayFile struct {
 	Scenario string `json:"scenario"`
 	Choices  []int  `json:"choices"`
